@@ -47,7 +47,10 @@ func memMachine(mode string, seed int64) *machine.Machine {
 }
 
 func memExec(id, mode string, seed int64, ops []memOp) *trace.Scenario {
-	m := memMachine(mode, seed)
+	var m *machine.Machine
+	if perr := machine.Try(func() { m = memMachine(mode, seed) }); perr != "" {
+		return &trace.Scenario{ID: id, Reset: []any{memCart.kind, 0, mode, seed}, Ev: [][]any{{"panic", "while preparing the start state: " + perr}}}
+	}
 	lcd := 0
 	if m.P.ReadLCDC()&0x80 != 0 {
 		lcd = 1
